@@ -16,9 +16,9 @@ import re
 from typing import Callable, Dict, List, Optional, Sequence, Tuple
 
 from .absdom import Aff, Constraints, NeedFork, Piece, show_pieces
-from .loader import AnalysisError, ClassInfo, Const, Ext, FuncInfo, ModRef, Program
+from .loader import AnalysisError, ClassInfo, Const, Ext, FuncInfo, ModRef, Program, decorator_name
 
-MAX_INLINE_DEPTH = 7
+MAX_INLINE_DEPTH = 12
 
 # ---------------------------------------------------------------------------
 # abstract values
@@ -548,8 +548,9 @@ class ConsumerSignal(Exception):
     suspended at a yield: it does not pass through the generator's handlers
     (the generator is closed: its finally blocks run)."""
 
-    def __init__(self, sig):
+    def __init__(self, sig, owner=None):
         self.sig = sig
+        self.owner = owner  # the loop whose body raised it: a loop nested in the generator lets it pass
 
 
 class NoSuchAttr(AnalysisError):
@@ -682,6 +683,24 @@ class Interp(object):
         if isinstance(op, (ast.Is, ast.IsNot)):
             same = self.identical(l, r)
             return same if isinstance(op, ast.Is) else not same
+        if (is_enum_member(l) or is_enum_member(r)) and not (isinstance(op, (ast.Is, ast.IsNot, ast.In, ast.NotIn))):
+            mem, other = (l, r) if is_enum_member(l) else (r, l)
+            if not isinstance(self.p.class_attr_def(mem.cls, "__eq__")[1], FuncInfo):
+                info_ = self.p.enum_info(mem.cls)
+                if isinstance(op, (ast.Eq, ast.NotEq)):
+                    if is_enum_member(other):
+                        same = mem is other
+                    elif info_["mixin"] is not None and isinstance(other, (str, int)) and not isinstance(other, bool):
+                        same = mem.attrs["value"] == other  # a member that is a str / an int equals that str / int
+                    elif info_["mixin"] is not None and isinstance(other, (Term, Aff)):
+                        same = self.equal(mem.attrs["value"], other)
+                    else:
+                        same = False
+                    return same if isinstance(op, ast.Eq) else not same
+                if info_["mixin"] == "int":
+                    lv = l.attrs["value"] if is_enum_member(l) else l
+                    rv = r.attrs["value"] if is_enum_member(r) else r
+                    return self.cmp(op, lv, rv, node)
         if isinstance(op, (ast.Eq, ast.NotEq)) and isinstance(l, AObj) and isinstance(l.cls, ClassInfo):
             # an object of the code base whose class spells out equality: == runs its __eq__, != its __ne__ (Python 3:
             # the negation of __eq__ when there is none); NotImplemented falls back to identity
@@ -851,7 +870,12 @@ class Interp(object):
             return bool(v)
         if isinstance(v, AList):
             if v.generic:
-                return self.path.choose("nonempty %r" % v)
+                res = self.path.choose("nonempty %r" % v)
+                # ... which is a fact about its length, should the length be asked for as well
+                if v.uid != "anon":  # (lists without a name of their own share one length symbol: no fact is recorded for them)
+                    t = Aff.sym("len:list@%s" % v.uid)
+                    self.path.cons.add(t - 1 if res else -t)
+                return res
             return bool(v.items)
         if isinstance(v, Aff):
             return not (self.ge0(v) and self.ge0(-v))
@@ -869,6 +893,9 @@ class Interp(object):
             if inner.op == "in" and len(inner.args) == 2 and isinstance(inner.args[1], Term):
                 self.path.termeq[("member", repr(inner.args[1]), repr(inner.args[0]))] = (res == pos)
             return res
+        if is_enum_member(v) and not any(isinstance(self.p.class_attr_def(v.cls, sp)[1], FuncInfo) for sp in ("__bool__", "__len__")):
+            info_ = self.p.enum_info(v.cls)
+            return bool(v.attrs["value"]) if (info_["mixin"] or info_["flag"]) else True
         if isinstance(v, AObj) and isinstance(v.cls, ClassInfo):
             # an object of the code base is true unless its class says otherwise (__bool__, else __len__)
             for special in ("__bool__", "__nonzero__", "__len__"):
@@ -877,6 +904,8 @@ class Interp(object):
                     return self.truth(self.call_function(raw, [v], {}, node), node)
         if isinstance(v, (AObj, ARec, AStruct, AReMatch)):
             return True
+        if isinstance(v, (BoundMethod, FuncInfo, ClassInfo, ACallable, LibRef)):
+            return True  # functions, methods and classes are true
         if isinstance(v, Term):
             return self.path.choose("truth %r" % v)
         self.unsupported(node, "truth value of %r" % (v,))
@@ -1137,7 +1166,40 @@ class Interp(object):
             r = hook(self, fi, args, kwargs)
             if r is not NotImplemented:
                 return r
-        if fi.node.decorator_list:
+        if fi.node.decorator_list and self.hooks.get("apply_decorators") and not getattr(fi, "undecorated_twin", False):
+            # (a kernel that judges what a wrapper of the code base does -- a memo around the pattern getter -- has the
+            # wrapper built and run instead of classified by its shape: decorator(func)(*args))
+            from .decorators import LIB_TRANSPARENT, DESCRIPTOR_NAMES, LIB_MEMO
+
+            own = []
+            foreign = []
+            for d in fi.node.decorator_list:
+                try:
+                    b = self.p.resolve_expr(fi.module, d.func if isinstance(d, ast.Call) else d)
+                except Exception:
+                    b = None
+                if isinstance(b, Ext):
+                    # a library decorator is classified as everywhere else (check_decorators below: transparent, descriptor,
+                    # a library memo -- whose body is then evaluated as if called afresh -- or unsupported)
+                    if not (b.dotted in LIB_TRANSPARENT or b.dotted in LIB_MEMO or b.dotted.split(".")[-1] in DESCRIPTOR_NAMES):
+                        foreign.append(b.dotted)
+                    continue
+                if isinstance(b, ClassInfo):
+                    own = None  # a descriptor class: handled where attributes are read
+                    break
+                own.append(d)
+            if own and foreign:
+                raise AnalysisError("%s: wrapped by decorators of the code base and by %s, which has no model" % (fi.where(), ", ".join(foreign)))
+            if own:
+                inner = FuncInfo(fi.module, fi.node, fi.owner)
+                inner.decorators = [x for x in fi.decorators if x in ("classmethod", "staticmethod")]
+                inner.undecorated_twin = True
+                callee = inner
+                scratch = Frame(self, None, {}, module=fi.module)
+                for d in reversed(own):
+                    callee = scratch.call_value(scratch.expr(d), [callee], {}, d)
+                return scratch.call_value(callee, list(args), dict(kwargs), node)
+        if fi.node.decorator_list and not getattr(fi, "undecorated_twin", False):
             self.check_decorators(fi)
             if fi.owner is None and args and any(ast.unparse(d.func if isinstance(d, ast.Call) else d).endswith("singledispatch") for d in fi.node.decorator_list):
                 impl = self.dispatch_single(fi, args[0], node)
@@ -1192,7 +1254,11 @@ class Interp(object):
         frame.on_yield = on_yield if on_yield is not None else (lambda v, _y=yielded: _gen_collect(self, _y, v))
         for k, v in list(env.items()):
             if isinstance(v, tuple) and len(v) == 2 and v[0] == "default":
-                env[k] = frame.expr(v[1])
+                if fi.owner is not None and getattr(fi.owner, "module", None) is not None and not isinstance(v[1], ast.Constant):
+                    # the default of a method's parameter was evaluated in the class body: names of that body are in scope
+                    env[k] = Frame(self, None, ClassBodyEnv(self, fi.owner), module=fi.owner.module).expr(v[1])
+                else:
+                    env[k] = frame.expr(v[1])
         self.depth += 1
         self.call_stack.append(fi.qualname)
         self.frames.append(frame)
@@ -1280,6 +1346,20 @@ class Interp(object):
             items = f.env.local_items() if isinstance(f.env, ChainEnv) else f.env.items()
             for k, v in items:
                 out[pre + k] = v
+        return out
+
+    def entry_snapshot(self) -> Dict[str, object]:
+        """merged_env() at the entry of the loop under inductive evaluation: objects of the code base are copied one level
+        deep, so that the havoc that follows (which rewrites the state such objects carry) does not rewrite the record of
+        what the state was when the loop was first reached"""
+        out, copies = {}, {}
+        for k, v in self.merged_env().items():
+            if isinstance(v, AObj):
+                if id(v) not in copies:
+                    copies[id(v)] = AObj(v.cls, dict(v.attrs), name=v.name)
+                    copies[id(v)].snapshot_of = v
+                v = copies[id(v)]
+            out[k] = v
         return out
 
     def new_term(self, prefix: str) -> Term:
@@ -1624,16 +1704,38 @@ class Frame(object):
                 for i, t in enumerate(target.elts):
                     self.assign(t, Term("item%d" % i, v))
                 return
+            if isinstance(v, AList) and v.generic and v.generic_from == 0 and len(v.items) == 1 and v.uid != "anon" \
+                    and not any(isinstance(t, ast.Starred) for t in target.elts):
+                # (a, b) = xs for a collection of unknown size whose every element is described by one representative: the
+                # sizes must agree (ValueError otherwise), and then each name is some element
+                k = len(target.elts)
+                n_ = Aff.sym("len:list@%s" % v.uid)
+                self.I.path.cons.add(n_)
+                if self.I.ge0(n_ - k) and self.I.ge0(Aff.const(k) - n_):
+                    for t in target.elts:
+                        self.assign(t, v.items[0])
+                    return
+                raise RaiseSig(AExc("ValueError", ["not enough / too many values to unpack (expected %d)" % k], {}))
             self.unsupported(target, "unpacking of %r" % (v,))
         if isinstance(target, ast.Attribute):
             obj = self.expr(target.value)
             if isinstance(obj, AObj):
+                raw_ = self.I.p.class_attr_def(obj.cls, target.attr)[1] if isinstance(obj.cls, ClassInfo) else None
+                if isinstance(raw_, FuncInfo) and raw_.kind == "property" and ("property" in raw_.decorators):
+                    setter = getattr(raw_, "setter", None)
+                    if setter is None:
+                        raise RaiseSig(AExc("AttributeError", ["property '%s' of '%s' object has no setter" % (target.attr, obj.cls.name)], {}))
+                    self.I.call_function(setter, [obj, v], {}, target)  # obj.x = v runs the property's setter
+                    return
                 obj.attrs[target.attr] = v
                 self.I.path.effects.append(("setattr", obj, target.attr, v))
                 return
             if isinstance(obj, ARec):
                 obj.attrs[target.attr] = v
                 self.I.path.effects.append(("setattr", obj, target.attr, v))
+                return
+            if isinstance(obj, ALambda):
+                obj.__dict__.setdefault("fn_attrs", {})[target.attr] = v  # an attribute hung on a function object
                 return
             if isinstance(obj, (Term, AStruct)):
                 self.I.path.effects.append(("setattr", obj, target.attr, v))
@@ -1674,6 +1776,13 @@ class Frame(object):
             it = self.expr(st.iter)
         finally:
             I.lazy_gen_node = None
+        if isinstance(it, ClassInfo) and I.p.enum_info(it) is not None:
+            seen_, items_ = set(), []
+            for nm_, mem_ in enum_members(I.p, it):  # aliases are skipped
+                if id(mem_) not in seen_:
+                    seen_.add(id(mem_))
+                    items_.append(mem_)
+            it = AList(items_, I.loop_depth)
         hook = I.hooks.get("iterate")
         if hook is not None and isinstance(it, AStruct):
             r_ = hook(self, it, st.iter)  # a library object a kernel knows how to walk (an open archive, a listing)
@@ -1683,7 +1792,7 @@ class Frame(object):
             # the loop under inductive evaluation is bounded by a number of rounds: an arbitrary round j (0 <= j, with
             # whatever the kernel knows about j) either exists (j < bound) and runs like the body of a while loop, or the
             # rounds are used up
-            I.path.effects.append(("loop-entry", I.merged_env()))
+            I.path.effects.append(("loop-entry", I.entry_snapshot()))
             hav = I.hooks.get("havoc")
             if hav is None:
                 self.unsupported(st, "no havoc hook for the loop")
@@ -1732,8 +1841,21 @@ class Frame(object):
                     self.unsupported(st, "a table filled under other keys than those of the table walked")
                 self.env[nm] = AMapGen(src.name, d[k])
             return
+        if isinstance(it, AFragList) and getattr(it, "opaque", False):
+            self.unsupported(st, "iteration over a list of objects whose content is not tracked")
+        if isinstance(it, AFragList):
+            # the fragments are known through their concatenation: a loop that only adds each one to an accumulator
+            # (`acc += fragment`) adds that concatenation
+            body = [b for b in st.body if not (isinstance(b, ast.Expr) and isinstance(b.value, ast.Constant))]
+            if len(body) == 1 and isinstance(body[0], ast.AugAssign) and isinstance(body[0].op, ast.Add) and isinstance(st.target, ast.Name) \
+                    and isinstance(body[0].value, ast.Name) and body[0].value.id == st.target.id and not st.orelse:
+                self.assign(st.target, it.rec)
+                self.block(st.body)
+                return
+            self.unsupported(st, "the list of fragments is walked for something other than an additive fold")
         if isinstance(it, AGenCall):
             broke = []
+            me = object()
 
             def on_yield(value):
                 self.assign(st.target, value)
@@ -1743,14 +1865,20 @@ class Frame(object):
                     pass
                 except LoopBreak:
                     broke.append(True)
-                    raise ConsumerSignal(None)
+                    I.path.effects.append(("break", "generator:%s" % getattr(it.fi, "name", "?")))
+                    raise ConsumerSignal(None, me)
                 except (RaiseSig, ReturnSig) as sig:
-                    raise ConsumerSignal(sig)
+                    if isinstance(sig, ReturnSig):
+                        # the consumer leaves while the generator still has elements to give: they are not visited
+                        I.path.effects.append(("return-in-loop", "generator:%s" % getattr(it.fi, "name", "?")))
+                    raise ConsumerSignal(sig, me)
                 return None
 
             try:
                 self.drive_generator(it, on_yield, st)
             except ConsumerSignal as cs:
+                if cs.owner is not me:
+                    raise  # raised by the body of an outer loop that consumes the generator this loop runs in
                 if cs.sig is not None:
                     raise cs.sig
                 return
@@ -1796,6 +1924,10 @@ class Frame(object):
                         pass
                     except LoopBreak:
                         self.unsupported(st, "break in a generic loop")
+                    except ReturnSig:
+                        # left from inside the walk: the elements after this one are not visited
+                        I.path.effects.append(("return-in-loop", getattr(it, "source", None) or "generic-list"))
+                        raise
             finally:
                 I.loop_depth -= 1
             if st.orelse:
@@ -1864,6 +1996,11 @@ class Frame(object):
                 I.path.effects.append(("break", it.name))
                 I.loop_depth -= 1
                 return
+            except ReturnSig:
+                # the function is left from inside the walk over the collection: the elements after this one are not visited
+                I.path.effects.append(("return-in-loop", it.name))
+                I.loop_depth -= 1
+                raise
             except BaseException:
                 I.loop_depth -= 1
                 raise
@@ -1886,6 +2023,9 @@ class Frame(object):
                 self.block(st.body)
             except LoopContinue:
                 pass
+            except ReturnSig:
+                I.path.effects.append(("return-in-loop", "keys:" + it.base))
+                raise
             if st is I.step_loop:
                 raise StepDone(dict(self.env))
             return
@@ -1901,6 +2041,9 @@ class Frame(object):
                 self.block(st.body)
             except LoopContinue:
                 pass
+            except ReturnSig:
+                I.path.effects.append(("return-in-loop", "%s:%s" % (it.which, it.m.base)))
+                raise
             finally:
                 I.loop_depth -= 1
             return
@@ -1977,17 +2120,21 @@ class Frame(object):
         saved = self.env.get("<acc>", _MISSING)
         self.env["<acc>"] = init
 
+        me = object()
+
         def on_yield(value):
             try:
                 self.env["<acc>"] = step(self.env["<acc>"], value)
             except (RaiseSig, ReturnSig) as sig:
-                raise ConsumerSignal(sig)
+                raise ConsumerSignal(sig, me)
             return None
 
         try:
             try:
                 self.drive_generator(it, on_yield, node)
             except ConsumerSignal as cs:
+                if cs.owner is not me:
+                    raise
                 if cs.sig is not None:
                     raise cs.sig
             return self.env["<acc>"]
@@ -2002,7 +2149,7 @@ class Frame(object):
         if st is not I.step_loop:
             self.unsupported(st, "while loop (not designated for inductive evaluation)")
         # record the state at loop entry, then havoc the loop-carried variables
-        I.path.effects.append(("loop-entry", I.merged_env()))
+        I.path.effects.append(("loop-entry", I.entry_snapshot()))
         hav = I.hooks.get("havoc")
         if hav is None:
             self.unsupported(st, "no havoc hook for the loop")
@@ -2195,6 +2342,12 @@ class Frame(object):
             return LibRef(r.dotted)
         if isinstance(r, tuple) and r and r[0] == "assign":
             _, mod, val = r
+            if isinstance(val, (ast.DictComp, ast.SetComp, ast.ListComp, ast.GeneratorExp)) or (
+                    isinstance(val, ast.Call) and any(isinstance(x, (ast.DictComp, ast.SetComp, ast.ListComp, ast.GeneratorExp)) for x in ast.walk(val))):
+                # a table computed once at import time from constants: the constant folder evaluates it
+                ok_, v_ = _fold_module_value(self.I.p, mod, val)
+                if ok_:
+                    return v_
             fr = Frame(self.I, None, {}, module=mod)
             return fr.expr(val)
         self.unsupported(node, "binding")
@@ -2229,12 +2382,32 @@ class Frame(object):
                     r = hook(self, base, a, node)
                     if r is not NotImplemented:
                         return r
+                if is_enum_member(base):
+                    info_ = I.p.enum_info(base.cls)
+                    if info_["mixin"] == "str" and isinstance(base.attrs.get("value"), str) and hasattr(str, a):
+                        return self.getattr(base.attrs["value"], a, node)  # the str the member is
                 if _certainly_no_attr(I.p, base.cls, a):
                     # an object of a class of the code base, with no library base class: an attribute that neither a class
                     # body on its MRO binds nor any statement of the code base ever stores does not exist (T3)
                     raise RaiseSig(AExc("AttributeError", ["'%s' object has no attribute '%s'" % (base.cls.name, a)], {}))
                 raise
         if isinstance(base, SuperProxy):
+            if isinstance(base.obj, ClassInfo):
+                # super(C, cls).name inside a classmethod: the next definition after C on cls's MRO, bound to cls
+                owner, raw = I.p.class_attr_def(base.obj, a, after=base.after)
+                if isinstance(raw, FuncInfo):
+                    if raw.kind == "classmethod":
+                        return BoundMethod("repo", raw, a, extra=[base.obj])
+                    if raw.kind == "staticmethod":
+                        return BoundMethod("repo", raw, a, extra=[])
+                    if raw.kind == "classproperty":
+                        return I.call_function(raw, [base.obj], {}, node)
+                    return BoundMethod("repo", raw, a, extra=[])
+                if isinstance(raw, Const):
+                    return raw.value
+                if raw is not None and owner is not None:
+                    fr_ = Frame(I, None, ClassBodyEnv(I, owner), module=owner.module)
+                    return fr_.expr(raw)
             if isinstance(base.obj, AObj):
                 owner, raw = I.p.class_attr_def(base.obj.cls, a, after=base.after)
                 if owner is None:
@@ -2243,6 +2416,13 @@ class Frame(object):
             if isinstance(base.obj, ARec):
                 return BoundMethod("lib-super", base.obj, a)
             self.unsupported(node, "super() attribute")
+        if isinstance(base, ClassInfo) and I.p.enum_info(base) is not None and not (a.startswith("_") and a != "__members__"):
+            members = enum_members(I.p, base)
+            if a == "__members__":
+                return dict(members)
+            for nm_, mem_ in members:
+                if nm_ == a:
+                    return mem_
         if isinstance(base, ClassInfo):
             for c_ in I.p.mro(base):
                 if not isinstance(c_, ClassInfo):
@@ -2267,8 +2447,14 @@ class Frame(object):
                 ntf = _namedtuple_fields(I.p, base)
                 if ntf is not None and a == "_fields":
                     return tuple(ntf)
+                if ntf is not None and a in ("_field_defaults", "_fields_defaults"):
+                    return {f_: Frame(I, None, {}, module=m_).expr(e_) for f_, (m_, e_) in _namedtuple_defaults(I.p, base).items()}
                 if ntf is not None and a == "_make":
                     return BoundMethod("py", lambda fr2, args, kwargs, node2: fr2.instantiate(base, list(args[0].items if isinstance(args[0], AList) else args[0]), {}, node2), a)
+                if not a.startswith("__") and all(isinstance(c_, ClassInfo) or getattr(c_, "dotted", "") in ("builtins.object", "object", "typing.Generic")
+                                                  for c_ in I.p.mro(base)):
+                    # a class of the code base without library bases: what no class body binds and nothing stored is not there
+                    raise NoSuchAttr("%s has no attribute %s" % (base.qualname, a))
                 self.unsupported(node, "class attribute")
             if isinstance(raw, FuncInfo):
                 if raw.kind == "classproperty":
@@ -2365,6 +2551,11 @@ class Frame(object):
 
     def index(self, base, idx, node):
         I = self.I
+        if isinstance(base, ClassInfo) and I.p.enum_info(base) is not None and isinstance(idx, str):
+            for nm_, mem_ in enum_members(I.p, base):
+                if nm_ == idx:
+                    return mem_
+            raise RaiseSig(AExc("KeyError", [idx], {}))
         if isinstance(base, AStruct) and base.kind == "class-namespace" and isinstance(idx, str):
             ci_ = base.fields["cls"]
             st_ = I.path.termeq.get(("class-store", ci_.qualname, idx), _MISSING)
@@ -2766,6 +2957,13 @@ class Frame(object):
             return self.nested_comprehension(e)
         g = e.generators[0]
         it = self.expr(g.iter)
+        if isinstance(it, ClassInfo) and I.p.enum_info(it) is not None:
+            seen_, items_ = set(), []
+            for nm_, mem_ in enum_members(I.p, it):
+                if id(mem_) not in seen_:
+                    seen_.add(id(mem_))
+                    items_.append(mem_)
+            it = AList(items_, I.loop_depth)
         hook = I.hooks.get("iterate")
         if hook is not None and isinstance(it, AStruct):
             r_ = hook(self, it, g.iter)
@@ -2952,6 +3150,12 @@ class Frame(object):
         for a in e.args:
             if isinstance(a, ast.Starred):
                 v = self.expr(a.value)
+                if isinstance(v, AObj) and isinstance(v.cls, ClassInfo) and isinstance(I.p.class_attr_def(v.cls, "__iter__")[1], FuncInfo):
+                    # f(*obj): what obj.__iter__() hands out, when that is a definite sequence
+                    it_ = I.call_function(I.p.class_attr_def(v.cls, "__iter__")[1], [v], {}, a)
+                    if isinstance(it_, AIter) and not it_.consumed and isinstance(it_.source, AList):
+                        it_ = it_.source
+                    v = it_
                 if isinstance(v, AList) and not v.generic:
                     args.extend(v.items)
                 elif isinstance(v, (list, tuple)):
@@ -3000,16 +3204,23 @@ class Frame(object):
             return self.apply_callable(fn, args, kwargs, node)
         if isinstance(fn, ALambda):
             a = fn.node.args
-            if a.vararg or a.kwarg:
-                self.unsupported(node, "lambda with *args/**kwargs")
-            params = [x.arg for x in a.posonlyargs + a.args] + [x.arg for x in a.kwonlyargs]
+            positional = [x.arg for x in a.posonlyargs + a.args]
+            params = positional + [x.arg for x in a.kwonlyargs]
             env = ChainEnv(fn.frame.env)  # own names; the enclosing variables are read through, as they are at that moment
             dict.update(env, fn.defaults)
-            for nm, v in zip(params, args):
+            for nm, v in zip(positional, args):
                 env[nm] = v
-            dict.update(env, kwargs)
+            extra_pos = list(args[len(positional):])
+            extra_kw = {k_: v_ for k_, v_ in kwargs.items() if k_ not in params}
+            dict.update(env, {k_: v_ for k_, v_ in kwargs.items() if k_ in params})
+            if a.vararg:
+                env[a.vararg.arg] = tuple(extra_pos)  # def f(x, *args, **kwargs): the rest, as a tuple / a dict
+                extra_pos = []
+            if a.kwarg:
+                env[a.kwarg.arg] = dict(extra_kw)
+                extra_kw = {}
             missing = [nm for nm in params if not dict.__contains__(env, nm)]
-            if len(args) > len(params) or missing:
+            if extra_pos or extra_kw or missing:
                 raise RaiseSig(AExc("TypeError", ["<lambda>() arguments"], {}))
             sub = Frame(I, fn.frame.fi, env, module=fn.frame.m)
             if isinstance(fn.node, ast.Lambda):
@@ -3050,6 +3261,10 @@ class Frame(object):
             return ANT.make(fn.fields, vals)
         if isinstance(fn, Term):
             return Term("call", fn, *[_t(a) for a in args])
+        if isinstance(fn, AObj) and isinstance(fn.cls, ClassInfo):
+            raw = I.p.class_attr_def(fn.cls, "__call__")[1]
+            if isinstance(raw, FuncInfo):
+                return I.call_function(raw, [fn] + list(args), dict(kwargs), node)  # a callable object of the code base
         self.unsupported(node, "call of %r" % (fn,))
 
     def apply_callable(self, fn: "ACallable", args, kwargs, node):
@@ -3114,6 +3329,20 @@ class Frame(object):
             if r is not NotImplemented:
                 return r
         p = I.p
+        if p.enum_info(ci) is not None:
+            # Cls(value): the member with that value
+            if len(args) != 1 or kwargs:
+                self.unsupported(node, "call of an enumeration")
+            if is_enum_member(args[0]) and args[0].cls is ci:
+                return args[0]
+            want = args[0].c if isinstance(args[0], Aff) and args[0].is_const else args[0]
+            if isinstance(want, (str, int, tuple)):
+                for nm_, mem_ in enum_members(p, ci):
+                    v0 = mem_.attrs["value"]
+                    if type(v0) is type(want) and v0 == want:
+                        return mem_
+                raise RaiseSig(AExc("ValueError", ["%r is not a valid %s" % (want, ci.name)], {}))
+            self.unsupported(node, "member of an enumeration looked up by a symbolic value")
         # exceptions
         if any(isinstance(c, Ext) and c.dotted in ("builtins.Exception", "builtins.ValueError", "builtins.RuntimeError",
                                                      "builtins.Warning") for c in p.mro(ci)):
@@ -3127,6 +3356,15 @@ class Frame(object):
             return make_circular(self, args, kwargs, node)
         nt_fields = _namedtuple_fields(p, ci)
         if nt_fields is not None:
+            # fields left out take the default the class body gives them (class X(NamedTuple): flag: bool = False)
+            kwargs = dict(kwargs)
+            defaults = _namedtuple_defaults(p, ci)
+            for i_, f_ in enumerate(nt_fields):
+                if i_ >= len(args) and f_ not in kwargs:
+                    if f_ in defaults:
+                        kwargs[f_] = Frame(I, None, {}, module=defaults[f_][0]).expr(defaults[f_][1])
+                    else:
+                        raise RaiseSig(AExc("TypeError", ["%s.__new__() missing required argument: %r" % (ci.name, f_)], {}))
             v = self.call_value(ANTType(ci.name, nt_fields), args, kwargs, node)
             v._nt_class = ci
             return v
@@ -3239,6 +3477,62 @@ def _concrete(v) -> bool:
     return False
 
 
+def _fold_module_value(p, mod, expr):
+    """(True, value) when the constant folder evaluates a module-level expression to plain data (strings, numbers, tuples,
+    frozensets, dicts and lists of those); a fresh copy every time, like evaluating the expression again"""
+    cache = p.__dict__.setdefault("_folded_module_values", {})
+    key = id(expr)
+    if key not in cache:
+        from .fold import Folder
+
+        def plain(x):
+            if x is None or isinstance(x, (str, int, float, bool)):
+                return True
+            if isinstance(x, (tuple, frozenset, list)):
+                return all(plain(y) for y in x)
+            if isinstance(x, dict):
+                return all(plain(k) and plain(w) for k, w in x.items())
+            return False
+
+        try:
+            v = Folder(p).module_const(mod, expr)
+            cache[key] = (plain(v), v)
+        except Exception:
+            cache[key] = (False, None)
+    ok, v = cache[key]
+    if not ok:
+        return False, None
+    import copy
+
+    return True, copy.deepcopy(v)
+
+
+def enum_members(p, ci):
+    """[(name, member)] of an enumeration of the code base: AObj singletons (one per program) carrying .name / .value as the
+    constant folder computes them; aliases map to the member of the first name with the same value"""
+    table = p.__dict__.setdefault("_abs_enum_members", {})
+    if id(ci) not in table:
+        from .fold import Folder
+
+        out, objs = [], {}
+        for name, fm in Folder(p).enum_members(ci):
+            if id(fm) not in objs:
+                v = fm.attrs["value"]
+                if getattr(v, "enum_member", False):
+                    # a member whose value is a member of another enumeration
+                    v = next(m_ for n_, m_ in enum_members(p, v.ci) if n_ == v.attrs["name"])
+                o = AObj(ci, {"name": fm.attrs["name"], "value": v, "_name_": fm.attrs["name"], "_value_": v}, name="%s.%s" % (ci.name, fm.attrs["name"]))
+                o.enum_member = True
+                objs[id(fm)] = o
+            out.append((name, objs[id(fm)]))
+        table[id(ci)] = out
+    return table[id(ci)]
+
+
+def is_enum_member(v) -> bool:
+    return isinstance(v, AObj) and getattr(v, "enum_member", False)
+
+
 def _certainly_no_attr(p, cls, name: str) -> bool:
     if not isinstance(cls, ClassInfo) or name.startswith("__"):
         return False
@@ -3259,11 +3553,32 @@ def _certainly_no_attr(p, cls, name: str) -> bool:
                     if isinstance(fn, (ast.FunctionDef, ast.AsyncFunctionDef)) and fn.args.args:
                         for n in ast.walk(fn):
                             owner_of.setdefault(id(n), (ci, fn.args.args[0].arg))
+            # receivers that are library records for sure: a name of a function on which an attribute only records have
+            # (features, annotations, letter_annotations, dbxrefs) is read or written in that same function
+            record_names = {}
+            for fn_ in ast.walk(m.tree):
+                if isinstance(fn_, (ast.FunctionDef, ast.AsyncFunctionDef)):
+                    recs_ = {x.value.id for x in ast.walk(fn_) if isinstance(x, ast.Attribute) and isinstance(x.value, ast.Name)
+                             and x.attr in ("features", "annotations", "letter_annotations", "dbxrefs")}
+                    for x in ast.walk(fn_):
+                        # ... or that is only ever bound to a record freshly made by the library / the record class
+                        if isinstance(x, ast.Assign) and len(x.targets) == 1 and isinstance(x.targets[0], ast.Name) and isinstance(x.value, ast.Call):
+                            f_ = x.value.func
+                            nm_ = f_.id if isinstance(f_, ast.Name) else (f_.attr if isinstance(f_, ast.Attribute) else "")
+                            if nm_ in ("SeqRecord", "CircularRecord") or (nm_ == "read" and "SeqIO" in ast.unparse(f_)):
+                                others_ = [y for y in ast.walk(fn_) if isinstance(y, ast.Assign) and any(
+                                    isinstance(t_, ast.Name) and t_.id == x.targets[0].id for t_ in y.targets) and y is not x]
+                                if not others_:
+                                    recs_.add(x.targets[0].id)
+                    for x in ast.walk(fn_):
+                        record_names.setdefault(id(x), set()).update(recs_)
             for n in ast.walk(m.tree):
                 if isinstance(n, ast.Attribute) and isinstance(n.ctx, (ast.Store, ast.Del)):
                     own = owner_of.get(id(n))
                     if own is not None and isinstance(n.value, ast.Name) and n.value.id == own[1]:
                         stored.add((n.attr, own[0].qualname))
+                    elif isinstance(n.value, ast.Name) and n.value.id in record_names.get(id(n), ()):
+                        stored.add((n.attr, "<library record>"))
                     else:
                         stored.add((n.attr, None))
                 elif isinstance(n, ast.Call) and isinstance(n.func, ast.Name) and n.func.id == "setattr" and len(n.args) >= 2:
@@ -3285,7 +3600,7 @@ def _certainly_no_attr(p, cls, name: str) -> bool:
         return False
     related = {c.qualname for c in p.mro(cls) if isinstance(c, ClassInfo)}
     for nm, q in stored:
-        if nm == name and q is not None:
+        if nm == name and q is not None and q != "<library record>":
             other = p.get_class(q) if q not in related else None
             if q in related or (other is not None and p.is_subclass(other, cls)):
                 return False
@@ -3362,6 +3677,20 @@ def _namedtuple_fields(p, ci):
     return None
 
 
+def _namedtuple_defaults(p, ci):
+    """{field: (module, default expression)} of a typing.NamedTuple class written with annotations"""
+    out = {}
+    for c in p.mro(ci):
+        node = getattr(c, "node", None)
+        if node is None or not any(ast.unparse(b) in ("typing.NamedTuple", "NamedTuple") for b in node.bases):
+            continue
+        for st in node.body:
+            if isinstance(st, ast.AnnAssign) and isinstance(st.target, ast.Name) and st.value is not None:
+                out[st.target.id] = (c.module, st.value)
+        break
+    return out
+
+
 def _dataclass_fields(p, ci):
     """[(field, default expression or None)] when the class is a @dataclass (fields of the bases first), else None"""
     out, found = [], False
@@ -3386,6 +3715,11 @@ def _dataclass_fields(p, ci):
 
 def lib_getattr(fr: Frame, base, a: str, node):
     I = fr.I
+    if isinstance(base, FuncInfo) and a in ("__name__", "__qualname__", "__doc__", "__module__"):
+        return {"__name__": base.name, "__qualname__": base.qualname.split(".", base.module.name.count(".") + 1)[-1],
+                "__doc__": ast.get_docstring(base.node, clean=False), "__module__": base.module.name}[a]
+    if isinstance(base, ALambda) and a in getattr(base, "fn_attrs", {}):
+        return base.fn_attrs[a]
     if isinstance(base, tuple) and getattr(base, "fields", None) and a in base.fields:
         return base[base.fields.index(a)]  # a namedtuple constant of the code base (folded class / module attribute)
     if isinstance(base, AStruct) and base.kind == "logger":
@@ -3401,8 +3735,18 @@ def lib_getattr(fr: Frame, base, a: str, node):
         if a in ("append", "extend"):
             def add(fr2, args, kwargs, node2):
                 x = args[0].rec if isinstance(args[0], AFragList) else args[0]
+                if getattr(base, "opaque", False):
+                    fr2.I.path.effects.append(("mutate", Term("list-of-objects"), a, list(args)))
+                    return None
                 if not isinstance(x, ARec):
+                    if getattr(base, "undetermined", False):
+                        # a list that was empty when the loop was reached and receives something other than records: a
+                        # list of objects kept for the record (the modules used so far), not the fragments to be joined
+                        base.opaque = True
+                        fr2.I.path.effects.append(("mutate", Term("list-of-objects"), a, list(args)))
+                        return None
                     fr2.unsupported(node2, "something other than a record added to the list of fragments")
+                base.undetermined = False
                 base.rec = fr2.binop(ast.Add(), base.rec, x, node2)
                 return None
             return BoundMethod("py", add, a)
@@ -3990,6 +4334,12 @@ def lib_call(fr: Frame, dotted: str, args, kwargs, node):
     if dotted == "collections.OrderedDict" and (not args or not (isinstance(args[0], AList) and not args[0].generic)):
         dotted = "builtins.dict"  # insertion-ordered like every dict of the interpreters the library supports
     short = dotted.split(".")[-1]
+    if dotted == "typing.cast" and len(args) == 2:
+        return args[1]
+    if dotted in ("builtins.classmethod", "builtins.staticmethod") and len(args) == 1 and isinstance(args[0], (ALambda, FuncInfo)):
+        return args[0]  # the binding it adds is known from the class table (where the name is looked up)
+    if dotted in ("typing.TypeVar", "typing.NewType", "typing.ParamSpec"):
+        return AStruct("type-expression", of=dotted)
     if dotted == "builtins.bool" and len(args) <= 1 and not kwargs:
         if not args:
             return False
@@ -4043,6 +4393,15 @@ def lib_call(fr: Frame, dotted: str, args, kwargs, node):
             I.path.cons.add(t)
             return t
         fr.unsupported(node, "len of %r" % (v,))
+    if dotted in ("builtins.str", "builtins.repr", "builtins.format") and args and is_enum_member(args[0]):
+        v = args[0]
+        info_ = I.p.enum_info(v.cls)
+        if any(isinstance(I.p.class_attr_def(v.cls, sp)[1], FuncInfo) for sp in ("__str__", "__repr__", "__format__")):
+            fr.unsupported(node, "text of a member of an enumeration that defines its own __str__ / __repr__ / __format__")
+        if short == "repr":
+            return "<%s.%s: %r>" % (v.cls.name, v.attrs["name"], v.attrs["value"])
+        # (Python >= 3.12: str() and format() give "Class.NAME" also when a type is mixed in; StrEnum gives the value)
+        return v.attrs["value"] if info_["str_enum"] else "%s.%s" % (v.cls.name, v.attrs["name"])
     if dotted == "builtins.str":
         v = args[0]
         if isinstance(v, ASeq):
@@ -4076,6 +4435,8 @@ def lib_call(fr: Frame, dotted: str, args, kwargs, node):
         if isinstance(args[1], str) and all(isinstance(a, int) for a in args[2:]):
             m = getattr(_re, short)(args[0], args[1], *args[2:])  # a pure library function of constants
             return None if m is None else AStruct("re-match-const", m=m)
+        if isinstance(args[1], (ASeq, ARec)):
+            I.path.effects.append(("text-search", "re." + short, bool(getattr(args[1], "upper", False)), [args[0]]))
         return Term(short, Term(repr(args[0])), _t(args[1]))
     if dotted == "collections.deque" and len(args) <= 1 and not kwargs:
         out = AList(list(args[0].items) if args and isinstance(args[0], AList) and not args[0].generic else (list(args[0]) if args and isinstance(args[0], (list, tuple)) else []),
@@ -4715,6 +5076,10 @@ def lib_isinstance(fr: Frame, v, t, node):
         tags = {"NoneType"}
     elif isinstance(v, (ClassInfo, RecType)):
         tags = {"type"}  # a class object
+    elif isinstance(v, Term) and v.op == "letter":
+        tags = {"str"}  # record[i] / seq[i] for an integer i: one letter
+    elif isinstance(v, Term) and I.hooks.get("term_type") is not None and I.hooks["term_type"](v) is not None:
+        tags = set(I.hooks["term_type"](v))  # a kernel's summary says what kind of library object the term stands for
     elif isinstance(v, Term):
         # an opaque value: one decision per (value, type test) and path
         key = ("isinstance", repr(v), repr(ts))
